@@ -298,16 +298,29 @@ func decoderScope(c *core.Ctx, prefix string, roots []*core.Fn, inScope func(*co
 			if !ok {
 				return true
 			}
-			id, ok := call.Fun.(*ast.Ident)
-			if !ok || id.Name != "make" || len(call.Args) < 2 {
+			// allocation sinks: make(T, n[, m]) and the library calls that reserve n bytes/elements up front
+			var sizes []ast.Expr
+			sink := "make"
+			if id, ok := call.Fun.(*ast.Ident); ok && id.Name == "make" && len(call.Args) >= 2 {
+				if _, isB := f.Pkg.TypesInfo.Uses[id].(*types.Builtin); isB {
+					sizes = call.Args[1:]
+				}
+			} else if callee := core.Callee(f.Pkg, call); callee != nil {
+				switch core.FuncKey(callee) {
+				case "bytes.(*Buffer).Grow", "strings.(*Builder).Grow":
+					sizes, sink = call.Args, "Grow"
+				case "slices.Grow":
+					if len(call.Args) == 2 {
+						sizes, sink = call.Args[1:], "Grow"
+					}
+				}
+			}
+			if len(sizes) == 0 {
 				return true
 			}
-			if _, isB := f.Pkg.TypesInfo.Uses[id].(*types.Builtin); !isB {
-				return true
-			}
-			for _, sz := range call.Args[1:] {
+			for _, sz := range sizes {
 				ord++
-				construct := fmt.Sprintf("%s make #%d size %s", f.Name(), ord, core.ExprString(sz))
+				construct := fmt.Sprintf("%s %s #%d size %s", f.Name(), sink, ord, core.ExprString(sz))
 				ok, why := boundedSize(p, f, sz, 0)
 				if ok {
 					if bad := unguardedSubtraction(f, sz); bad != "" {
@@ -319,6 +332,65 @@ func decoderScope(c *core.Ctx, prefix string, roots []*core.Fn, inScope func(*co
 			}
 			return true
 		})
+	}
+	// time/memory: no string is grown by concatenation inside a loop (each `s += x` copies all of s: a message with n
+	// elements costs n² — out of proportion to the bytes received)
+	for _, f := range fns {
+		ord := 0
+		var visit func(n ast.Node, inLoop bool)
+		visit = func(n ast.Node, inLoop bool) {
+			ast.Inspect(n, func(m ast.Node) bool {
+				if m == n {
+					return true
+				}
+				switch x := m.(type) {
+				case *ast.ForStmt:
+					visit(x.Body, true)
+					return false
+				case *ast.RangeStmt:
+					// a range over an array or a constant is bounded by the program, not by the input
+					if t := f.Pkg.TypesInfo.TypeOf(x.X); t != nil {
+						if _, isArr := t.Underlying().(*types.Array); isArr {
+							visit(x.Body, inLoop)
+							return false
+						}
+					}
+					visit(x.Body, true)
+					return false
+				case *ast.FuncLit:
+					return false
+				case *ast.AssignStmt:
+					if !inLoop || len(x.Lhs) != 1 || len(x.Rhs) != 1 {
+						return true
+					}
+					lt := f.Pkg.TypesInfo.TypeOf(x.Lhs[0])
+					b, isBasic := lt.Underlying().(*types.Basic)
+					if lt == nil || !isBasic || b.Info()&types.IsString == 0 {
+						return true
+					}
+					grows := x.Tok == token.ADD_ASSIGN
+					if x.Tok == token.ASSIGN {
+						if be, ok := core.Unparen(x.Rhs[0]).(*ast.BinaryExpr); ok && be.Op == token.ADD && core.SameExpr(f.Pkg, core.Unparen(be.X), core.Unparen(x.Lhs[0])) {
+							grows = true
+						}
+					}
+					if !grows {
+						return true
+					}
+					// declared inside the loop: it does not accumulate across iterations
+					if o := core.ObjOf(f.Pkg, x.Lhs[0]); o != nil {
+						if lp := enclosingLoop(f, x); lp != nil && o.Pos() >= lp.Pos() && o.Pos() < lp.End() {
+							return true
+						}
+					}
+					ord++
+					c.Fail(prefix+"linear-accumulation", fmt.Sprintf("%s string accumulation #%d `%s`", f.Name(), ord, core.ExprString(x.Lhs[0])), x.Pos(),
+						"a string is extended by concatenation on every iteration of an input-driven loop: each step copies the whole string, so n elements cost n² bytes of copying — a 64 KB message of empty TLVs keeps the receiver busy for seconds, a larger one wedges it")
+				}
+				return true
+			})
+		}
+		visit(f.Decl.Body, false)
 	}
 	// time: every loop is a range, a bounded counter, or consumes input on every iteration
 	for _, f := range fns {
@@ -795,4 +867,16 @@ func loopTerminates(p *core.Prog, f *core.Fn, loop *ast.ForStmt) (bool, string) 
 		return true, "every iteration consumes input (or returns)"
 	}
 	return false, ""
+}
+
+// enclosingLoop returns the innermost for/range statement containing n.
+func enclosingLoop(f *core.Fn, n ast.Node) ast.Node {
+	var loop ast.Node
+	for _, anc := range core.PathTo(f.Decl.Body, n) {
+		switch anc.(type) {
+		case *ast.ForStmt, *ast.RangeStmt:
+			loop = anc
+		}
+	}
+	return loop
 }
